@@ -91,6 +91,11 @@ for u in ("1/cm", "eV", "THz"):
         back = mm.get_transition_width((0, 1))
         if abs(back - x) > 1e-9 * x:
             bad.append("transition width supplied as %g %s reads back as %.9g inside the same units context" % (x, u, back))
+        m3 = qr.Molecule([0.0, mm.get_energy(1), 1.05 * mm.get_energy(1)])
+        m3.set_adiabatic_coupling(1, 2, x)
+        backa = m3.get_adiabatic_coupling(1, 2)
+        if abs(backa - x) > 1e-9 * x:
+            bad.append("adiabatic coupling (a transition width-like accessor pair) supplied as %g %s reads back as %.9g inside the same units context" % (x, u, backa))
         ag_.set_resonance_coupling(0, 1, x)
         backc = ag_.get_resonance_coupling(0, 1)
         if abs(backc - x) > 1e-9 * x:
